@@ -274,7 +274,7 @@ func Execute(w *World, tape *simrt.Tape, gold []*Golden, onFatal func(int, strin
 	cfg := simrt.Config{
 		Tape: tape, Policy: w.Cfg.Policy, SwitchPct: w.Cfg.SwitchPct, PCTDepth: w.Cfg.PCTDepth,
 		PoolFreshPct: w.Cfg.PoolFreshPct, PoolAnyPct: w.Cfg.PoolAnyPct, PoolDropPct: w.Cfg.PoolDropPct,
-		FPYieldPct: w.Cfg.FPYieldPct, OnFatal: onFatal,
+		FPYieldPct: w.Cfg.FPYieldPct, ClockVaryPct: w.Cfg.ClockVaryPct, OnFatal: onFatal,
 	}
 	simrt.Begin(cfg)
 
@@ -320,6 +320,7 @@ func Execute(w *World, tape *simrt.Tape, gold []*Golden, onFatal func(int, strin
 		"pool-gc":    res.Stats.PoolGC,
 		"panic":      res.Stats.FPPanics,
 		"preemption": res.Stats.Switches,
+		"clock-step": res.Stats.ClockJumps,
 	}
 	res.Probes = map[string]int64{
 		"pool-item-crossed-tasks": res.Stats.PoolCross,
@@ -329,6 +330,7 @@ func Execute(w *World, tape *simrt.Tape, gold []*Golden, onFatal func(int, strin
 		"blocked":                 res.Stats.Blocks,
 		"library-spawned-tasks":   res.Stats.Spawned,
 		"channel-operations":      res.Stats.ChanOps,
+		"clock-reads-by-the-library": res.Stats.ClockReads,
 		"schemas-sharing-type-objects-judged":     x.sharedJudged,
 		"schemas-sharing-type-objects-not-judged": x.sharedSkipped,
 	}
